@@ -50,6 +50,87 @@ Example c04_confluent_instance :
     end) (all_lists 3 [0; 1; 2]) = true.
 Proof. vm_compute. reflexivity. Qed.
 
+(* ---- schedule independence (the second sentence of the property), Model/Conf.v ----
+   (a) the abstract statement: a step is a pool of messages, a schedule picks ANY message next, the
+   handler's sends are a function `react` of the message content; every complete schedule logs the
+   same multiset of invocations, for every message type, every `react`, every pool, unboundedly. *)
+Require Import NX.Model.Conf NX.Proofs.ConfProofs NX.Proofs.ConfNet.
+
+Theorem c04_schedule_independence_pool :
+  forall (M : Type) (react : M -> list M) P L1,
+    cruns react P L1 -> forall P' L2, Permutation P P' -> cruns react P' L2 -> Permutation L1 L2.
+Proof. exact conf_unique. Qed.
+Print Assumptions c04_schedule_independence_pool.
+
+(* no schedule gets stuck or runs longer: a partial schedule of a pool that has one complete schedule
+   can always be completed, to the same multiset *)
+Theorem c04_every_schedule_completes_pool :
+  forall (M : Type) (react : M -> list M) P L2 Q,
+    pruns react P L2 Q -> forall L1, cruns react P L1 ->
+    exists L3, cruns react Q L3 /\ Permutation L1 (L2 ++ L3).
+Proof. exact conf_complete. Qed.
+Print Assumptions c04_every_schedule_completes_pool.
+
+(* outputs that are a function of the invocation (sink writes, replies) form the same multiset too *)
+Theorem c04_schedule_independent_outputs :
+  forall (M : Type) (react : M -> list M) (O : Type) (out : M -> list O) P L1 L2,
+    cruns react P L1 -> cruns react P L2 -> Permutation (flat_map out L1) (flat_map out L2).
+Proof. exact conf_outputs. Qed.
+Print Assumptions c04_schedule_independent_outputs.
+
+(* (b) the net model of Sim.v (the model the implementation is compared with) refines the pool: for a
+   bench whose scripts are sends and queries (bench_plain), every run of the net model under every
+   choice list is a schedule of the pool of its start state, logging exactly the picked invocations *)
+Theorem c04_net_run_is_pool_schedule :
+  forall b, bench_plain b = true -> forall fuel ch s nd s' nd',
+    NInv s -> net_run b fuel ch s nd = Some (s', nd') ->
+    NInv s' /\ exists L,
+      pruns (bench_react b) (pool_of b s) L (pool_of b s') /\
+      invs (log s') = rev (filter cm_logged L) ++ invs (log s) /\
+      sinks s' = fold_left sink_apply L (sinks s).
+Proof. exact net_run_is_pool_schedule. Qed.
+Print Assumptions c04_net_run_is_pool_schedule.
+
+(* (c) hence, on the net model: two runs from one state under ANY two choice lists that end with an
+   empty pool log the same multiset of handler invocations and perform the same multiset of sink writes *)
+Theorem c04_schedule_independence :
+  forall b s f1 ch1 nd1 s1 nd1' f2 ch2 nd2 s2 nd2',
+    bench_plain b = true -> NInv s ->
+    net_run b f1 ch1 s nd1 = Some (s1, nd1') -> net_run b f2 ch2 s nd2 = Some (s2, nd2') ->
+    pool_of b s1 = [] -> pool_of b s2 = [] ->
+    exists l1 l2 w1 w2,
+      invs (log s1) = l1 ++ invs (log s) /\ invs (log s2) = l2 ++ invs (log s) /\ Permutation l1 l2 /\
+      sinks s1 = fold_left sink_apply w1 (sinks s) /\ sinks s2 = fold_left sink_apply w2 (sinks s) /\
+      Permutation w1 w2.
+Proof. exact net_confluent. Qed.
+Print Assumptions c04_schedule_independence.
+
+Theorem c04_no_schedule_does_more :
+  forall b s f1 ch1 nd1 s1 nd1' f2 ch2 nd2 s2 nd2',
+    bench_plain b = true -> NInv s ->
+    net_run b f1 ch1 s nd1 = Some (s1, nd1') -> net_run b f2 ch2 s nd2 = Some (s2, nd2') ->
+    pool_of b s1 = [] ->
+    exists l1 l2, invs (log s1) = l1 ++ invs (log s) /\ invs (log s2) = l2 ++ invs (log s) /\
+                  length l2 <= length l1.
+Proof. exact net_no_longer_run. Qed.
+Print Assumptions c04_no_schedule_does_more.
+
+(* the hypotheses are decidable and met: ninv_check is evaluated by the correspondence runner at the start
+   of every init / process call of every plain bench, and the pool is checked empty whenever the call
+   returns Ok (tools/props/confprops.py) *)
+Theorem c04_invariant_check_is_sound : forall s, ninv_check s = true -> NInv s.
+Proof. exact ninv_check_sound. Qed.
+Print Assumptions c04_invariant_check_is_sound.
+
+Example c04_schedule_independence_nonvacuous :
+  bench_plain conf_bench = true /\ NInv conf_start /\
+  exists s1 s2 nd1 nd2,
+    net_run conf_bench 500 [] conf_start false = Some (s1, nd1) /\
+    net_run conf_bench 500 [3; 1; 4; 1; 5; 9; 2; 6; 5; 3; 5; 8; 9; 7; 9] conf_start false = Some (s2, nd2) /\
+    pool_of conf_bench s1 = [] /\ pool_of conf_bench s2 = [] /\
+    invs (log s1) <> invs (log s2) /\ length (invs (log s1)) = 10.
+Proof. exact net_confluent_nonvacuous. Qed.
+
 (* ---- the worker-pool protocol of the multi-threaded executor (Model/Pool.v) ----
    For the barrier program GENERATED from the current executor/mt_executor.rs, for every pool size,
    every interleaving of the workers and the main thread at the granularity of one shared access and
